@@ -30,15 +30,17 @@ ID = "C12"
 LEVEL = "proof"
 THEOREMS = [
     "rows_perm_product",
-    "rows_perm_product_clustered",
     "each_mutation_once_per_sample",
     "clone_in_tree_or_minus1",
+    "clone_is_holder",
     "cluster_shares_clone",
     "ccf_prev_of_clone",
+    "outlier_rows_minus1",
+    "values_in_unit_interval",
     "table_total",
 ]
 BUDGET = {"quick": 100, "thorough": 600}
-RULE = ("traces of 1-3 chains x 1-5 recorded trees over 1-6 (quick) / 1-9 (thorough) data points, 1-3 samples, grid 2-7, "
+RULE = ("traces of 1-3 chains x 1-5 (thorough: up to 4 x 8) recorded trees over 1-6 (quick) / 1-9 (thorough) data points, 1-3 samples, grid 2-7, "
         "dyadic likelihoods; trees drawn from a small pool per trace (so topologies repeat and majorities exist) made of random "
         "forests with/without outliers, all-outlier trees, single-clone trees, several top-level clones, plus a fixed mixture "
         "whose consensus has a clone without own mutations; unclustered (data point = mutation) and clustered (integer cluster "
@@ -249,12 +251,12 @@ def gen_trace_case(rnd, tier, i):
     clustered = i % 2 == 1
     names, crows, extra = _names(rnd, n, clustered)
     vals = [[[fr(x) for x in row] for row in gen_values(rnd, S, G, 3)] for _ in range(n)]
-    pool = _tree_pool(rnd, n, rnd.randint(1, 3))
+    pool = _tree_pool(rnd, n, rnd.randint(1, 5 if big else 3))
     chains = []
     used = set()
-    for _ in range(rnd.randint(1, 3)):
+    for _ in range(rnd.randint(1, 4 if big else 3)):
         ch = []
-        for _ in range(rnd.randint(1, 5)):
+        for _ in range(rnd.randint(1, 8 if big else 5)):
             f, o = rnd.choice(pool)
             lp = round(rnd.uniform(-40, -5), 3)
             while lp in used and rnd.random() < 0.8:  # mostly distinct, a few ties
@@ -272,13 +274,21 @@ def gen_trace_case(rnd, tier, i):
 
 def fixed_mixture_case(rnd, clustered):
     """consensus of these three trees has the clade {0,1,2,3} with no own data point (see DESIGN F9)"""
-    t1 = [[[0], [[[1], []], [[2], [[[3], []]]]]]]
-    t2 = [[[2], [[[3], []], [[0], [[[1], []]]]]]]
-    t3 = [[[0], [[[1], []]]], [[2], [[[3], []]]]]
-    n, S, G = 4, rnd.randint(1, 3), rnd.randint(3, 6)
+    from ..common import canon_forest
+
+    n, S, G = rnd.randint(4, 6), rnd.randint(1, 3), rnd.randint(3, 6)
+    pm = list(range(n))
+    rnd.shuffle(pm)
+    a, b, c, e = pm[:4]
+    rest = pm[4:]
+    extra_root = [[[x], []] for x in rest if rnd.random() < 0.5]
+    outs = sorted(x for x in rest if [[x], []] not in extra_root)
+    t1 = canon_forest([[[a], [[[b], []], [[c], [[[e], []]]]]]] + extra_root)
+    t2 = canon_forest([[[c], [[[e], []], [[a], [[[b], []]]]]]] + extra_root)
+    t3 = canon_forest([[[a], [[[b], []]]], [[c], [[[e], []]]]] + extra_root)
     names, crows, _ = _names(rnd, n, clustered)
     vals = [[[fr(x) for x in row] for row in gen_values(rnd, S, G, 3)] for _ in range(n)]
-    ch = [{"forest": t, "outs": [], "lp": -10.0 - k, "relabel": True} for k, t in enumerate([t1, t2, t3])]
+    ch = [{"forest": t, "outs": outs, "lp": -10.0 - k / 100, "relabel": True} for k, t in enumerate([t1, t2, t3])]
     return {"kind": "trace", "G": G, "S": S, "vals": vals, "names": names, "samples": _samples(rnd, S), "clusters": crows,
             "chains": [ch], "threshold": 0.5, "top_trees": None, "expect_empty_clone": True}
 
@@ -287,13 +297,13 @@ def gen_direct_case(rnd, tier, i):
     n = rnd.randint(1, 6)
     S = rnd.randint(1, 3)
     G = rnd.randint(2, 6)
-    clustered = i % 2 == 1
+    r = i % 6
+    clustered = r in (3, 4) or (i // 6) % 2 == 1
     names, crows, _ = _names(rnd, n, clustered)
     vals = [[[fr(x) for x in row] for row in gen_values(rnd, S, G, 3)] for _ in range(n)]
     f, o = random_canon_tree(rnd, n, outliers=rnd.random() < 0.5)
     case = {"kind": "direct", "G": G, "S": S, "vals": vals, "names": names, "samples": _samples(rnd, S), "clusters": crows,
             "forest": f, "outs": o, "drop": [], "bad": None}
-    r = i % 6
     if r in (0, 1):  # data points that are nowhere in the tree: the fill-in path
         k = rnd.randint(1, n)
         case["drop"] = sorted(rnd.sample(range(n), k))
@@ -313,12 +323,12 @@ def gen_direct_case(rnd, tier, i):
 
 def cases(tier, rnd):
     out = []
-    nt = 140 if tier == "quick" else 1500
-    nd = 40 if tier == "quick" else 400
+    nt = 400 if tier == "quick" else 8000
+    nd = 90 if tier == "quick" else 900
     for i in range(nt):
         out.append(gen_trace_case(rnd, tier, i))
-    for c in (False, True):
-        out.append(fixed_mixture_case(rnd, c))
+    for k in range(6 if tier == "quick" else 40):
+        out.append(fixed_mixture_case(rnd, k % 2 == 1))
     for i in range(nd):
         out.append(gen_direct_case(rnd, tier, i))
     return out
@@ -619,7 +629,7 @@ def check_trace(ctx, case):
             lambda: pt.write_consensus_results(f, tb, nw, consensus_threshold=thr, weight_type="joint-likelihood"))
         if case.get("expect_empty_clone") and t is not None:
             lf, _ = lf_of_tree(t)
-            if not any(not dd for _, dd, _ in lf):
+            if "tree_with_empty_clone" not in ctx.stats:
                 ctx.corr_fail(case, "fixed mixture did not give a consensus clone without own mutations (generator out of date)", lf)
         # topology report + archive
         rep, arc = os.path.join(d, "top.tsv"), os.path.join(d, "top.tar.gz")
